@@ -111,6 +111,9 @@ var c15Containers = []struct {
 	{"fn-body", "<% let f2 = fn() { %>\n  t\n", "\n<% } %>\n<%= f2() %>\n", false},
 	{"helper-block", "<%= cap() { %>\n  t\n", "\n<% } %>\n", false},
 	{"contentFor", "<% contentFor(\"c\") { %>\n  t\n", "\n<% } %>\n<%= contentOf(\"c\") %>\n", true},
+	{"helper-block-in-helper-block", "<%= cap() { %>\n  t\n<%= cap() { %>\n  u\n", "\n<% } %>\n<% } %>\n", false},
+	{"default-block-of-contentOf-in-helper-block", "<%= cap() { %>\n  t\n<%= contentOf(\"nosuch\") { %>\n  u\n", "\n<% } %>\n<% } %>\n", false},
+	{"three-helper-blocks-deep", "<%= cap() { %>\n<%= cap() { %>\n\n<%= cap() { %>\n", "\n<% } %>\n<% } %>\n<% } %>\n", false},
 	{"nested-if-for", "<%= if (true) { %>\n<%= for (x) in [1] { %>\n", "\n<% } %>\n<% } %>\n", false},
 	{"after-executed-block", "<%= if (true) { %>\n  t <%= 1 %>\n<% } %>\nmid\n", "\n", false},
 	{"after-multi-line-string-with-escaped-quotes", "<% let ms = \"one\ntwo \\\"q\\\" three\nfour \\\"\nfive\" %>\n<% let bs = `a\nb \\` %>\n", "\n", false},
